@@ -421,6 +421,86 @@ theorem on_day_spec (R : DateTime) (hv : R.date.valid = true) (day : Nat) (h1 : 
           · exact valid_md _ _ _ (by omega) (by omega) (by omega) (by omega) h1 h28
       exact (lt_of_ord ⟨_, 0⟩ R this).1
 
+/-- Days 29..31 included: whatever `onDay` returns are valid calendar dates at midnight (C11: never an invalid value;
+the month arithmetic of `datedelta` rolls or clamps instead). -/
+theorem on_day_values_valid (R : DateTime) (hv : R.date.valid = true) (day : Nat) (t : Str) (f p : DateTime)
+    (h : onDay R day = .ok t f p) :
+    f.date.valid = true ∧ p.date.valid = true ∧ f.secs = 0 ∧ p.secs = 0 ∧ t = luisDayOnly day := by
+  unfold onDay at h
+  rw [isValidDate_nat] at h
+  by_cases vd : (⟨R.date.y, R.date.m, day⟩ : Date).valid = true
+  · rw [if_pos vd, safeCreate_ymd _ _ _ vd] at h
+    have keep : ∀ (k : Int) (hk : k = 1 ∨ k = -1) (r : DateTime),
+        addDelta ⟨⟨R.date.y, R.date.m, day⟩, 0⟩ 0 k 0 = some r → r.date.valid = true ∧ r.secs = 0 := by
+      intro k hk r hr
+      refine ⟨(addDelta_month_idx _ vd k hk r hr).1, ?_⟩
+      unfold addDelta at hr
+      cases hd : datedeltaAdd (⟨R.date.y, R.date.m, day⟩ : Date) 0 k 0 with
+      | none => simp [hd] at hr
+      | some d => simp only [hd, Option.map_some, Option.some.injEq] at hr; subst hr; rfl
+    cases hlt : (⟨⟨R.date.y, R.date.m, day⟩, 0⟩ : DateTime).lt R <;>
+      cases hle : R.le (⟨⟨R.date.y, R.date.m, day⟩, 0⟩ : DateTime) <;>
+      simp only [hlt, hle, if_true, if_false, Bool.false_eq_true, ofOpt, Option.bind_eq_bind, Option.pure_def,
+        Option.bind_some] at h
+    · simp only [Option.getD_some, Res.ok.injEq] at h
+      obtain ⟨ht, e1, e2⟩ := h
+      subst e1 e2
+      exact ⟨vd, vd, rfl, rfl, ht.symm⟩
+    · cases hp : addDelta ⟨⟨R.date.y, R.date.m, day⟩, 0⟩ 0 (-1) 0 with
+      | none => simp [hp] at h
+      | some pa =>
+        simp only [hp, Option.bind_some, Option.getD_some, Res.ok.injEq] at h
+        obtain ⟨ht, e1, e2⟩ := h
+        subst e1 e2
+        have b := keep (-1) (Or.inr rfl) pa hp
+        exact ⟨vd, b.1, rfl, b.2, ht.symm⟩
+    · cases hf : addDelta ⟨⟨R.date.y, R.date.m, day⟩, 0⟩ 0 1 0 with
+      | none => simp [hf] at h
+      | some fu =>
+        simp only [hf, Option.bind_some, Option.getD_some, Res.ok.injEq] at h
+        obtain ⟨ht, e1, e2⟩ := h
+        subst e1 e2
+        have a := keep 1 (Or.inl rfl) fu hf
+        exact ⟨a.1, vd, a.2, rfl, ht.symm⟩
+    · cases hf : addDelta ⟨⟨R.date.y, R.date.m, day⟩, 0⟩ 0 1 0 with
+      | none => simp [hf] at h
+      | some fu =>
+        cases hp : addDelta ⟨⟨R.date.y, R.date.m, day⟩, 0⟩ 0 (-1) 0 with
+        | none => simp [hf, hp] at h
+        | some pa =>
+          simp only [hf, hp, Option.bind_some, Option.getD_some, Res.ok.injEq] at h
+          obtain ⟨ht, e1, e2⟩ := h
+          subst e1 e2
+          have a := keep 1 (Or.inl rfl) fu hf
+          have b := keep (-1) (Or.inr rfl) pa hp
+          exact ⟨a.1, b.1, a.2, b.2, ht.symm⟩
+  · rw [if_neg vd] at h; cases h
+
+/-! ## "two days from tomorrow" -/
+
+/-- `N days from <today | tomorrow | yesterday>`: the reference's date + N + swift days, at midnight, future = past,
+definite TIMEX (C08: calendar arithmetic on the reference date). -/
+theorem special_day_with_num_spec (R : DateTime) (hv : R.date.valid = true) (n sw : Int) (t : Str) (f p : DateTime)
+    (h : specialDayWithNum R (some n) sw = .ok t f p) :
+    f = p ∧ f.secs = 0 ∧ f.date.valid = true ∧ (f.date.ord : Int) = R.date.ord + n + sw ∧
+    t = luisDate f.date.y f.date.m f.date.d := by
+  unfold specialDayWithNum at h
+  simp only at h
+  rw [addDelta_days R hv] at h
+  cases ha : addDays R (n + sw) with
+  | none => simp [ha] at h
+  | some v =>
+    simp only [ha, Res.ok.injEq] at h
+    obtain ⟨ht, hf, hp⟩ := h
+    have s := addDays_spec R hv _ v ha
+    have mv : midnightOf v = ⟨v.date, 0⟩ := by unfold midnightOf; exact safeCreate_valid v.date s.1
+    rw [mv] at hf hp
+    subst hf hp
+    exact ⟨rfl, rfl, s.1, by simp only; omega, by rw [← ht]; rfl⟩
+
+example : specialDayWithNum ⟨⟨2020, 2, 28⟩, 50400⟩ (some 2) 1 =
+    .ok (ofString "2020-03-02") ⟨⟨2020, 3, 2⟩, 0⟩ ⟨⟨2020, 3, 2⟩, 0⟩ := by decide
+
 /-- A day the reference's month does not have: `strptime` raises — no result at all, for every reference
 ("the 31st" asked in any 30-day month, "the 30th" in February). -/
 theorem on_day_missing_raises (R : DateTime) (day : Nat) (h : daysInMonth R.date.y R.date.m < day) :
